@@ -91,6 +91,19 @@ def nontrivial(i, g):
     return ok(i) and ok(g)
 
 
+MAX_DEPTH = 25
+
+
+def max_depth(res):
+    d = m = 0
+    for e in res[1]:
+        if e[0] == D.NLENTER:
+            d += 1; m = max(m, d)
+        elif e[0] == D.NLRETURN:
+            d -= 1
+    return m
+
+
 def run_main(case):
     return loop_impl.run_case(copy.deepcopy(case))
 
@@ -100,7 +113,7 @@ class FourWay(object):
 
     def __init__(self, cases, worker):
         self.cases, self.impl_m, self.impl_g = [], [], []
-        self.dropped = dict(main_steps=0, both_diverge=0)
+        self.dropped = dict(main_steps=0, both_diverge=0, too_deep=0)
         self.suspect = []         # GLib implementation did not finish although MainLoop did: the model decides
         self.hung = []            # GLib implementation exceeded the per-case wall budget (worker killed)
         for c in cases:
@@ -114,6 +127,9 @@ class FourWay(object):
                 self.hung.append((c, i))
             if 5 in i[0]:
                 self.dropped["main_steps"] += 1
+                continue
+            if max_depth(i) > MAX_DEPTH or (isinstance(g, list) and max_depth(g) > MAX_DEPTH):
+                self.dropped["too_deep"] += 1          # CPython's recursion limit is not part of the models
                 continue
             c = [fuel_for(i, g), c[1], c[2]]
             if 5 in g[0] or 6 in g[0]:
